@@ -1,54 +1,67 @@
 """C54 - sticky cookies are only sent to hosts and paths they belong to.
 
-Decided from the source of mitmproxy/addons/stickycookie.py:
-  R54.1 attach guard (decision table): the conditions guarding ``cookie_list.extend(...)`` inside the jar loop of
-        StickyCookie.request are extracted (nested ifs / ``and`` / ``all([...])``) and *evaluated on the AST* (pure string
-        fragment, helpers such as domain_match / path_match interpreted too, http.cookiejar.domain_match taken from the
-        standard library) for every combination of 10 host/domain pairs x 2 port pairs x 14 request-path/cookie-path pairs.
-        The guard may be true only if the host domain-matches the cookie domain (RFC 6265 5.1.3), the ports are equal and the
-        request path path-matches the cookie path (RFC 6265 5.1.4: equal, or prefix ending at a "/" boundary); it must be true
-        for the all-matching baseline.  A bare ``startswith(cookie_path)`` fails the cell (/foobar, /foo).
-  R54.2 jar discipline in StickyCookie.response (all paths): a cookie value is stored only after
-        domain_match(flow.request.host, key[0]) was true for key = ckey(attrs, flow) and is_expired(attrs) was false; an expired
-        cookie is popped from its jar entry and an emptied entry is removed; ckey returns (Domain attribute or request host,
-        port of the responding request, Path attribute or "/") - table over the 4 attribute combinations.
-NOT decided: cookie parsing / is_expired, the sticky filter itself, public-suffix handling.
+Decided by INTERPRETING the two hooks of mitmproxy/addons/stickycookie.py (``mitmlint.pyint``: the hook bodies, every helper they call
+- wherever it lives and whatever it is called -, ``cookies.is_expired`` / ``get_expiration_ts`` / ``format_cookie_header`` are run on
+the AST; nothing is matched by statement shape or by the name of a local / helper) in concrete worlds and comparing the observable
+outcome with a reference written from the property text:
+  R54.1 attach (decision table): ``StickyCookie.request`` is interpreted with a jar holding one entry (cookie domain, cookie port,
+        cookie path) -> {name: token} for every combination of 16 host/domain pairs x 2 port pairs x 14 request-path/cookie-path
+        pairs; the token may reach the request's headers only if the host domain-matches the cookie domain (RFC 6265 5.1.3), the
+        ports are equal and the request path path-matches the cookie path (RFC 6265 5.1.4: equal, or prefix ending at a "/"
+        boundary); it must be attached for the all-matching baseline (otherwise the evaluation is vacuous: ANALYSIS-ERROR).
+        A bare ``startswith(cookie_path)`` fails the cell (/foobar, /foo); http.cookiejar.domain_match alone fails the
+        inner-occurrence hosts (www.example.com.evil.org).
+  R54.2 jar discipline: ``StickyCookie.response`` is interpreted for responses carrying Set-Cookie entries (host-only / Domain with and
+        without leading dot / foreign and inner-substring domains; Path present or not; no expiry, Max-Age > 0, = 0, < 0, Expires in the
+        past / future; jar empty, holding that cookie, holding it and another one; multi-cookie responses) and the jar afterwards is
+        compared with the reference: nothing changes for a Domain the responding host does not domain-match; an expired cookie is
+        removed from its entry and an emptied entry is dropped; a cookie is stored only under
+        (Domain attribute or request host, port of the responding request, Path attribute or "/") with its value.
+        (Not storing a cookie that could have been stored is tolerated - the property is a safety property - as long as the clear
+        cases are stored, otherwise ANALYSIS-ERROR.  A Domain attribute without leading dot that only RFC 6265 lets match a
+        sub-domain may be treated either way.)
+The jar layout (domain, port, path) -> {name: value} is the one stated by the property (and pinned by the repository's tests).
+NOT decided: Set-Cookie parsing (the worlds start from parsed (name, value, attrs) triples), the sticky filter itself (taken as
+matching), public-suffix handling.  The wall clock is a fixed instant.
 """
 
 from __future__ import annotations
 
 import ast
+import collections
+import copy
+import email.utils
+import functools
 import http.cookiejar
 import itertools
+import operator
+import re
+import types
 
 from ..core import AnalysisError
-from ..core import norm
-from ..model import attr_chain
-from ..model import call_name
-from ..model import eval_order
-from ..model import walk_in_order
-from ..paths import GenericSpec
-from ..paths import index_of
+from ..pyint import ClassRef
+from ..pyint import DictRec
+from ..pyint import Interp
+from ..pyint import NullLog
+from ..pyint import Raised
+from ..pyint import Rec
 from ..selftest import Mutant
-from ._helpers_F import own_nodes
-from ._helpers_F import params_of
-from ._helpers_F import PureEval
-from ._helpers_F import Raised
-from ._helpers_F import single_assignment
-from ._helpers_F import StrictEngine
 
 PROP = "C54"
 REG = {
     "strength": "partial",
-    "technique": "guard extraction + decision table evaluated by interpreting the pure string predicates of the addon on sample hosts / ports / paths; "
-    "path rules (must-precede) on StickyCookie.response; table for ckey",
-    "claim": "the guard under which StickyCookie.request attaches a stored cookie implies RFC 6265 domain-match, port equality and RFC 6265 path-match "
-    "on 280 sample cells (incl. inner-substring hosts and the /foo vs /foobar boundary); cookies are stored only for domains the responding host "
-    "domain-matches, expired ones are removed together with emptied jar entries; jar keys are (domain, responding port, path).",
-    "note": "Sample-based table (not all strings). Trusted: http.cookiejar.domain_match (standard library), cookies.is_expired.",
+    "technique": "whole-hook interpretation (pyint) of StickyCookie.request / StickyCookie.response, helpers and cookies.is_expired included, in "
+    "concrete worlds (sample hosts / ports / paths / expiry attributes / jar states); outcome (request headers, jar) compared with an RFC 6265 reference",
+    "claim": "a jar cookie reaches the request's headers only if RFC 6265 domain-match, port equality and RFC 6265 path-match hold, on 448 sample cells "
+    "(incl. inner-substring hosts and the /foo vs /foobar boundary); after a response the jar equals the reference: unchanged for domains the responding "
+    "host does not domain-match, expired cookies (Max-Age <= 0, Expires in the past) removed together with emptied entries, cookies stored only under "
+    "(Domain | host, responding port, Path | '/').",
+    "note": "Sample-based tables (not all strings). Trusted: http.cookiejar.domain_match, email.utils date parsing, re (standard library, used as their "
+    "own model); the clock is a fixed instant; the sticky filter is taken as matching; Set-Cookie parsing is not decided.",
 }
 
 F = "mitmproxy/addons/stickycookie.py"
+CLS = "StickyCookie"
 
 
 # ---------------------------------------------------------------------------------------------------
@@ -59,6 +72,13 @@ def spec_domain(host: str, cookie_domain: str) -> bool:
     d = cookie_domain.lstrip(".").lower()
     h = host.lower()
     return bool(d) and (h == d or h.endswith("." + d))
+
+
+def core_domain(host: str, cookie_domain: str) -> bool:
+    """matches under RFC 6265 *and* under the older dotted-domain rules (RFC 2965 / http.cookiejar): equal, or a dotted Domain attribute"""
+    d = cookie_domain.lstrip(".").lower()
+    h = host.lower()
+    return bool(d) and (h == d or (cookie_domain.startswith(".") and h.endswith("." + d)))
 
 
 def spec_path(request_path: str, cookie_path: str) -> bool:
@@ -83,251 +103,351 @@ PATHS = [
     ("/foobar?next=/foo/", "/foo"), ("/x?/foo", "/foo"),
 ]
 
+# responses: (responding host, Domain attribute | None)
+SET_HOSTS = [
+    ("www.example.com", None), ("www.example.com", ".example.com"), ("example.com", "example.com"), ("example.com", ".example.com"),
+    ("WWW.Example.COM", ".example.com"), ("a.b.example.com", ".example.com"),
+    ("a.example.com", "example.com"),  # RFC 6265 only
+    ("www.example.com", "evil.org"), ("www.example.com", ".evil.org"), ("www.example.com", "ample.com"), ("evil-example.com", "example.com"),
+    ("evil-example.com", ".example.com"), ("example.com.evil.org", ".example.com"), ("www.example.com.evil.org", ".example.com"),
+    ("www.example.com.evil.org", "example.com"), ("example.org", "example.com"), ("notexample.com", ".example.com"),
+    ("www.example.com.", ".example.com"), ("example.com", "www.example.com"),
+    (".example.com", "www.example.com"),  # operands the wrong way round: the *domain* would domain-match the host
+]
+NOW = 2_000_000_000.0  # the fixed instant (2033-05-18)
+EXPIRY = [  # (attributes, expired?)
+    ({}, False), ({"Max-Age": "3600"}, False), ({"Max-Age": "0"}, True), ({"Max-Age": "-1"}, True),
+    ({"Expires": "Thu, 01 Jan 1970 00:00:10 GMT"}, True), ({"Expires": "Fri, 01 Jan 2100 00:00:00 GMT"}, False),
+]
+RPORT = 8443
+UNRELATED = (("other.invalid", 80, "/"), {"z": "kept"})
+
+
+# ---------------------------------------------------------------------------------------------------
+# the world: trusted library stand-ins and abstract records
+
+
+class _Clock:
+    """`time` module with a fixed instant"""
+
+    def time(self):
+        return NOW
+
+    def monotonic(self):
+        return NOW
+
+    def time_ns(self):
+        return int(NOW) * 10**9
+
+
+class _Filter:
+    """a parsed filter expression: callable on a flow; the sticky filter is taken as matching"""
+
+    _pyint_accepts_abstract = True
+
+    def __call__(self, flow):
+        return True
+
+
+class _SetCookies:
+    """flow.response.cookies: a multidict view whose items are (name, (value, attrs))"""
+
+    _pyint_accepts_abstract = True
+
+    def __init__(self, entries):
+        self._entries = list(entries)
+
+    def items(self, multi=False):
+        return list(self._entries)
+
+    def __len__(self):
+        return len(self._entries)
+
+
+def _trusted():
+    return {
+        "re": re,
+        "time": _Clock(),
+        "email": types.SimpleNamespace(utils=types.SimpleNamespace(parsedate_tz=email.utils.parsedate_tz, mktime_tz=email.utils.mktime_tz, formatdate=email.utils.formatdate)),
+        "logging": NullLog(),
+        "collections": types.SimpleNamespace(defaultdict=collections.defaultdict, OrderedDict=collections.OrderedDict),
+        "http": types.SimpleNamespace(cookiejar=types.SimpleNamespace(domain_match=http.cookiejar.domain_match)),
+        "itertools": itertools,
+        "functools": functools,
+        "operator": operator,
+    }
+
+
+class _Interp(Interp):
+    def stmt(self, st, env, mod, depth):
+        # `lst += iterable` is list.extend (pyint evaluates it as lst + iterable, which is a TypeError for a dict view)
+        if isinstance(st, ast.AugAssign) and isinstance(st.op, ast.Add):
+            cur = self.ev(st.target, env, mod, depth)
+            if isinstance(cur, list):
+                self.tick()
+                cur.extend(self.iterate(self.ev(st.value, env, mod, depth), st.value))
+                return
+        super().stmt(st, env, mod, depth)
+
+    def call_func(self, f, args, kwargs, depth):
+        # the filter language is not part of this property: flowfilter.match(flt, flow) == flt(flow) for a compiled filter
+        if f.mod.rel == "mitmproxy/flowfilter.py" and getattr(f.node, "name", "") == "match" and len(args) == 2 and isinstance(args[0], _Filter):
+            return args[0](args[1])
+        return super().call_func(f, args, kwargs, depth)
+
+
+class World:
+    def __init__(self, ctx):
+        self.ctx = ctx
+        self.model = ctx.model
+        self.mod = self.model.module(F)
+        self.cls = self.model.cls(F, CLS)
+        self.it = _Interp(self.model, trusted_modules=_trusted(), max_steps=200000)
+        self.raised: dict = {}
+
+    def addon(self, jar):
+        self.it.steps = 0
+        rec = self.it.instantiate(ClassRef(self.mod, self.cls), [], {}, 0, "StickyCookie()")
+        store = rec.__dict__.get("jar")
+        if not isinstance(store, dict):
+            raise AnalysisError(f"StickyCookie().jar is not a dict after __init__ ({type(store).__name__}): jar representation not modelled")
+        for k, v in jar.items():
+            store[k] = dict(v)
+        object.__setattr__(rec, "flt", _Filter())
+        return rec
+
+    @staticmethod
+    def flow(host, port, path, pretty_host=None, set_cookies=None):
+        headers = DictRec("Headers", items={}, case_insensitive=True, _name="request.headers")
+        ph = host if pretty_host is None else pretty_host
+        request = Rec("Request", host=host, pretty_host=ph, host_header=ph, port=port, path=path, headers=headers, method="GET", scheme="http", authority="",
+                      url=f"http://{host}:{port}{path}", pretty_url=f"http://{ph}:{port}{path}", http_version="HTTP/1.1")
+        response = None
+        if set_cookies is not None:
+            response = Rec("Response", cookies=_SetCookies(set_cookies), status_code=200, reason="OK", http_version="HTTP/1.1",
+                           headers=DictRec("Headers", items={}, case_insensitive=True, _name="response.headers"))
+        return Rec("HTTPFlow", request=request, response=response, metadata=DictRec("dict", items={}, _name="flow.metadata"), id="flow-1", live=True,
+                   is_replay=None, server_conn=Rec("Server", address=("upstream.invalid", 1), peername=("192.0.2.1", 1), sni="sni.invalid"),
+                   client_conn=Rec("Client", peername=("192.0.2.2", 2)))
+
+    def run(self, rec, hook, flow):
+        """interpret one hook; an exception raised by the hook ends it like in the addon manager (which logs it): effects so far stay"""
+        self.it.steps = 0
+        try:
+            self.it.method(rec, hook, flow)
+        except Raised as r:
+            self.raised[f"{hook}: {r.name}"] = self.raised.get(f"{hook}: {r.name}", 0) + 1
+            return r.name
+        return None
+
+    @staticmethod
+    def jar_of(rec):
+        store = rec.__dict__.get("jar")
+        if not isinstance(store, dict):
+            raise AnalysisError("StickyCookie.jar was replaced by a non-dict (not modelled)")
+        out = {}
+        for k, v in store.items():
+            if not isinstance(v, dict):
+                raise AnalysisError(f"StickyCookie.jar[{k!r}] is not a dict of cookies (not modelled)")
+            out[k] = dict(v)
+        return out
+
+
+def attrs_of(domain, path, expiry):
+    items = {}
+    if domain is not None:
+        items["domain"] = domain
+    if path is not None:
+        items["path"] = path
+    items.update(expiry)
+    return DictRec("CookieAttrs", items=items, case_insensitive=True, _name="attrs")
+
 
 # ---------------------------------------------------------------------------------------------------
 # R54.1
 
 
-def module_calls(ctx, ev_factory):
-    """model for calls to the module's own pure helpers: interpret them recursively"""
-    calls = {"cookiejar.domain_match": http.cookiejar.domain_match, "http.cookiejar.domain_match": http.cookiejar.domain_match}
-    mod = ctx.model.module(F)
-    for q, d in mod.defs().items():
-        if isinstance(d, ast.FunctionDef) and "." not in q:
-            calls[q] = (lambda fn: lambda *a, **k: ev_factory().call(fn, *a, **k))(d)
-    return calls
+TOKEN = "tok3n54"
+DECOY = "d3coy54"
 
 
-def attach_guard(ctx, fn):
-    """-> (loop, extend call, [conjunct expressions]) for the statement that adds jar cookies to the outgoing list"""
-    loops = [n for n in own_nodes(fn) if isinstance(n, ast.For) and isinstance(n.iter, ast.Call) and attr_chain(n.iter.func) == "self.jar.items"]
-    ctx.require(len(loops) == 1, f"StickyCookie.request: expected one loop over self.jar.items(), found {len(loops)}")
-    loop = loops[0]
-    t = loop.target
-    ok = isinstance(t, ast.Tuple) and len(t.elts) == 2 and isinstance(t.elts[0], ast.Tuple) and len(t.elts[0].elts) == 3 and all(isinstance(x, ast.Name) for x in t.elts[0].elts) and isinstance(t.elts[1], ast.Name)
-    ctx.require(ok, f"StickyCookie.request: loop target not modelled: {norm(t)}")
-    adds = [c for c in ast.walk(loop) if isinstance(c, ast.Call) and isinstance(c.func, ast.Attribute) and c.func.attr in ("extend", "append", "update", "__iadd__")
-            and any(isinstance(n, ast.Name) and n.id == t.elts[1].id for a in c.args for n in ast.walk(a))]
-    adds += [n for n in ast.walk(loop) if isinstance(n, ast.AugAssign) and any(isinstance(x, ast.Name) and x.id == t.elts[1].id for x in ast.walk(n.value))]
-    ctx.require(len(adds) == 1, f"StickyCookie.request: expected one statement adding the jar entry's cookies, found {len(adds)}")
-    conj = []
-    node = adds[0]
-    while node is not loop:
-        par = node._parent
-        if isinstance(par, ast.If):
-            if node in par.body:
-                conj.append(par.test)
-            elif node in par.orelse:
-                conj.append(ast.UnaryOp(op=ast.Not(), operand=par.test))
-        elif isinstance(par, (ast.While, ast.For, ast.Try, ast.With, ast.Match)) and par is not loop:
-            raise AnalysisError(f"StickyCookie.request: the attach statement is nested in {type(par).__name__} (not modelled)")
-        node = par
-    out = []
+def check_attach(ctx, w: World):
+    fn = ctx.func(F, f"{CLS}.request")
+    W = (F, f"{CLS}.request", fn)
 
-    def flatten(e):
-        if isinstance(e, ast.BoolOp) and isinstance(e.op, ast.And):
-            for v in e.values:
-                flatten(v)
-        elif isinstance(e, ast.Call) and call_name(e) == "all" and len(e.args) == 1:
-            a = e.args[0]
-            if isinstance(a, ast.Name):
-                vals = [n.value for n in ast.walk(loop) if isinstance(n, ast.Assign) and any(isinstance(x, ast.Name) and x.id == a.id for x in n.targets)]
-                ctx.require(len(vals) == 1, f"StickyCookie.request: `{a.id}` is not assigned exactly once in the loop")
-                a = vals[0]
-            ctx.require(isinstance(a, (ast.List, ast.Tuple)), f"StickyCookie.request: all({norm(a)}) not modelled")
-            for v in a.elts:
-                flatten(v)
-        else:
-            out.append(e)
+    def attached(host, hport, hpath, cdom, cport, cpath):
+        rec = w.addon({(cdom, cport, cpath): {"sid": TOKEN}, ("decoy.invalid", 1, "/zzz/"): {"d": DECOY}})
+        flow = w.flow(host, hport, hpath)
+        w.run(rec, "request", flow)
+        seen = [str(v) for v in flow.request.headers._items.values()] + [str(v) for k, v in flow.request.__dict__.items() if k in ("cookies", "content", "query")]
+        if any(DECOY in s for s in seen):
+            return "decoy"
+        return any(TOKEN in s for s in seen)
 
-    for c in conj:
-        flatten(c)
-    # other statements of the loop must not rebind the key variables
-    bound = {x.id for x in t.elts[0].elts}
-    for n in ast.walk(loop):
-        if isinstance(n, ast.Name) and isinstance(n.ctx, ast.Store) and n.id in bound and n not in t.elts[0].elts:
-            raise AnalysisError(f"StickyCookie.request: loop rebinds {n.id} (not modelled)")
-    return loop, adds[0], out
-
-
-def check_attach(ctx):
-    fn = ctx.func(F, "StickyCookie.request")
-    W = (F, "StickyCookie.request", fn)
-    flow = params_of(fn)[1]
-    loop, add, conj = attach_guard(ctx, fn)
-    dvar, pvar, pathvar = [x.id for x in loop.target.elts[0].elts]
-    # positions of the jar key are fixed by ckey (checked in R54.2): (domain, port, path)
-    if not conj:
-        ctx.fail("R54.1", W, "jar cookies attached without any guard", "every stored cookie is sent to every host, port and path")
-        return
     wrong = {"domain": None, "port": None, "path": None}
     n_true = 0
-    used = {n.id for c in conj for n in ast.walk(c) if isinstance(n, ast.Name)}
-    prelude = [st for st in loop.body if isinstance(st, ast.Assign) and len(st.targets) == 1 and isinstance(st.targets[0], ast.Name) and st.targets[0].id in used]
-
-    def guard(host, hport, hpath, cdom, cport, cpath):
-        def factory():
-            ev = PureEval("StickyCookie.request guard", chains={f"{flow}.request.host": host, f"{flow}.request.pretty_host": host, f"{flow}.request.port": hport, f"{flow}.request.path": hpath})
-            ev.calls = module_calls(ctx, factory)
-            return ev
-
-        env = {dvar: cdom, pvar: cport, pathvar: cpath}
-        try:
-            for st in prelude:  # plain local assignments of the loop body that precede the guard (e.g. match = [...])
-                env[st.targets[0].id] = factory().expr(st.value, dict(env))
-            return all(bool(factory().expr(c, dict(env))) for c in conj)
-        except Raised:
-            return False  # the hook raises: nothing is attached
-
+    total = len(HOSTS) * len(PORTS) * len(PATHS)
     for (host, cdom), (hport, cport), (hpath, cpath) in itertools.product(HOSTS, PORTS, PATHS):
         ctx.cells += 1
-        got = guard(host, hport, hpath, cdom, cport, cpath)
+        got = attached(host, hport, hpath, cdom, cport, cpath)
+        if got == "decoy":
+            ctx.fail("R54.1", W, "jar cookies attached without any guard", "a cookie stored for decoy.invalid:1/zzz/ is sent to " + f"{host}:{hport}{hpath}")
+            return
         want = {"domain": spec_domain(host, cdom), "port": hport == cport, "path": spec_path(hpath, cpath)}
         if got:
             n_true += 1
             for k, v in want.items():
-                if not v and wrong[k] is None and all(w for kk, w in want.items() if kk != k):
+                if not v and wrong[k] is None and all(x for kk, x in want.items() if kk != k):
                     wrong[k] = {"domain": f"host {host} / cookie domain {cdom}", "port": f"request port {hport} / cookie port {cport}", "path": f"request path {hpath} / cookie path {cpath}"}[k]
+            if sum(1 for v in want.values() if not v) > 1 and not any(wrong.values()):
+                # attached although two or more do not match, and no single-mismatch cell exposed it yet
+                k = next(k for k, v in want.items() if not v)
+                wrong[k] = f"host {host}:{hport}{hpath} / cookie {cdom}:{cport}{cpath}"
     text = {"domain": "the request host does not domain-match the cookie's domain", "port": "the request port differs from the port that set the cookie",
             "path": "the request path does not path-match the cookie's path (RFC 6265 5.1.4)"}
     for k in ("domain", "port", "path"):
         ctx.check(wrong[k] is None, "R54.1", W, f"cookie attached although {k} does not match: {wrong[k]}", f"a sticky cookie is sent although {text[k]}",
-                  desc=f"attach guard implies {k} match on all {len(HOSTS) * len(PORTS) * len(PATHS)} cells ({' and '.join(norm(c) for c in conj)[:120]})")
-    base = guard("www.example.com", 80, "/foo/bar", ".example.com", 80, "/foo")
-    ctx.require(base or any(w for w in wrong.values()), "StickyCookie.request: the guard is false even when host, port and path all match (evaluation vacuous)")
-    ctx.note(f"attach guard true on {n_true} of {len(HOSTS) * len(PORTS) * len(PATHS)} cells")
+                  desc=f"a jar cookie reaches the request only if the {k} matches, on all {total} cells (request hook interpreted)")
+    base = attached("www.example.com", 80, "/foo/bar", ".example.com", 80, "/foo")
+    ctx.require(base is True or any(wrong.values()), f"{CLS}.request: nothing is attached even when host, port and path all match (evaluation vacuous; hook raised: {w.raised})")
+    ctx.note(f"attach: token reached the request headers on {n_true} of {total} cells")
 
 
 # ---------------------------------------------------------------------------------------------------
 # R54.2
 
 
-class RespSpec(GenericSpec):
-    def __init__(self, flow):
-        super().__init__(record_conds=True)
-        self.flow = flow
-        self.keyvar = None
-
-    def _key_of(self, sub):
-        """self.jar[<k>] -> text of k"""
-        if isinstance(sub, ast.Subscript) and attr_chain(sub.value) == "self.jar":
-            return norm(sub.slice)
-        return None
-
-    def events(self, node, st):
-        out = []
-        for n in eval_order(node):
-            if isinstance(n, ast.Call) and isinstance(n.func, ast.Attribute) and n.func.attr == "pop":
-                k = self._key_of(n.func.value)
-                if k is not None:
-                    out.append(("popname", k))
-                elif attr_chain(n.func.value) == "self.jar" and n.args:
-                    out.append(("popkey", norm(n.args[0])))
-        if isinstance(node, ast.Assign):
-            for t in node.targets:
-                if isinstance(t, ast.Subscript) and self._key_of(t.value) is not None:
-                    out.append(("store", self._key_of(t.value)))
-                elif self._key_of(t) is not None or attr_chain(t) == "self.jar":
-                    out.append(("store-entry", norm(t)))
-        if isinstance(node, ast.Delete):
-            for t in node.targets:
-                if self._key_of(t) is not None:
-                    out.append(("popkey", self._key_of(t)))
-                elif isinstance(t, ast.Subscript) and self._key_of(t.value) is not None:
-                    out.append(("popname", self._key_of(t.value)))
-        return out
-
-    def cond_event(self, expr, value, st):
-        if isinstance(expr, ast.Call) and call_name(expr) in ("domain_match", "cookiejar.domain_match") and len(expr.args) == 2:
-            a, b = expr.args
-            good = attr_chain(a) == f"{self.flow}.request.host" and isinstance(b, ast.Subscript) and isinstance(b.value, ast.Name) and isinstance(b.slice, ast.Constant) and b.slice.value == 0
-            return ("dm", b.value.id, value) if good else ("dm-wrong", norm(expr), value)
-        if isinstance(expr, ast.Call) and call_name(expr).endswith("is_expired") and len(expr.args) == 1:
-            return ("expired", value)
-        if self._key_of(expr) is not None:
-            return ("nonempty", self._key_of(expr), value)
-        if attr_chain(expr) in ("self.flt", f"{self.flow}.response"):
-            return ("pre", value)
-        return None
+def reference_jar(before, host, port, cookies):
+    """the jar after a response from host:port carrying cookies = [(name, value, domain|None, path|None, expired)]"""
+    jar = copy.deepcopy(before)
+    for name, value, dom, path, expired in cookies:
+        key = (dom if dom is not None else host, port, path if path is not None else "/")
+        if not spec_domain(host, key[0]):
+            continue
+        if expired:
+            if key in jar:
+                jar[key].pop(name, None)
+                if not jar[key]:
+                    del jar[key]
+        else:
+            jar.setdefault(key, {})[name] = value
+    return jar
 
 
-def check_response(ctx):
-    fn = ctx.func(F, "StickyCookie.response")
-    W = (F, "StickyCookie.response", fn)
-    flow = params_of(fn)[1]
-    sp = RespSpec(flow)
-    eng = StrictEngine(sp, lambda e: sp.cond_event(e, True, None) is not None, "StickyCookie.response")
-    trs = eng.terminal(fn)
-    ctx.paths += len(trs)
-    stores = [tr for tr, _, _ in trs if any(e[0] == "store" for e in tr)]
-    ctx.require(stores, "StickyCookie.response: no path stores a cookie (shape not recognised)")
-    for tr, how, _ in trs:
-        for e in tr:
-            if e[0] == "store-entry":
-                raise AnalysisError(f"StickyCookie.response: whole jar entries are written ({e[1]}), not modelled")
-    # the key is ckey(attrs, flow)
-    keys = {e[1] for tr in stores for e in tr if e[0] == "store"}
-    ctx.require(len(keys) == 1 and keys.copy().pop().isidentifier(), f"StickyCookie.response: jar key expression not modelled: {keys}")
-    key = keys.pop()
-    kv = [n.value for n in own_nodes(fn) if isinstance(n, ast.Assign) and any(isinstance(t, ast.Name) and t.id == key for t in n.targets)]
-    ok = len(kv) == 1 and isinstance(kv[0], ast.Call) and call_name(kv[0]) == "ckey" and len(kv[0].args) == 2 and norm(kv[0].args[1]) == flow
-    ctx.check(ok, "R54.2", W, f"jar key {key} = {norm(kv[0]) if kv else '?'}", "the jar key must be ckey(attrs, flow) of the responding flow", desc=f"jar key {key} = ckey(attrs, {flow})")
-    bad = None
-    for tr in stores:
-        i = index_of(tr, lambda e: e[0] == "store")
-        if not any(e == ("dm", key, True) for e in tr[:i]):
-            bad = bad or ("a cookie is stored without domain_match(flow.request.host, key[0]) being true", tr)
-        if not any(e == ("expired", False) for e in tr[:i]):
-            bad = bad or ("an expired cookie is stored", tr)
-    ctx.check(not bad, "R54.2", W, f"store: {bad[0] if bad else ''}", f"{bad[0] if bad else ''} (path {list(bad[1]) if bad else ''}): a response can plant cookies for unrelated domains",
-              desc=f"cookie stored only after domain_match(flow.request.host, {key}[0]) and not is_expired ({len(stores)} storing paths)")
-    bad = None
-    seen_exp = False
-    for tr, how, _ in trs:
-        if ("dm", key, True) in tr and ("expired", True) in tr:
-            seen_exp = True
-            i = index_of(tr, lambda e: e == ("expired", True))
-            if not any(e == ("popname", key) for e in tr[i:]):
-                bad = bad or ("an expired cookie is not removed from its jar entry", tr)
-            j = index_of(tr, lambda e: e == ("nonempty", key, False), i)
-            if index_of(tr, lambda e: e[0] == "nonempty" and e[1] == key, i) < 0:
-                bad = bad or ("after removing an expired cookie the jar entry is not tested for emptiness", tr)
-            elif j >= 0 and not any(e == ("popkey", key) for e in tr[j:]):
-                bad = bad or ("an emptied jar entry is not removed", tr)
-    ctx.require(seen_exp or ctx.findings, "StickyCookie.response: no path handles expired cookies (shape not recognised)")
-    ctx.check(not bad, "R54.2", W, f"expiry: {bad[0] if bad else ''}", f"{bad[0] if bad else ''} (path {list(bad[1]) if bad else ''})",
-              desc="expired cookie: popped from the entry, emptied entry removed from the jar")
+def check_response(ctx, w: World):
+    fn = ctx.func(F, f"{CLS}.response")
+    W = (F, f"{CLS}.response", fn)
+    bad = {"foreign": None, "expiry": None, "key": None, "history": None}
+    count = {"foreign": 0, "expiry": 0, "key": 0, "history": 0}
+    stored_clear = 0
+    not_stored = 0
 
+    def respond(before, host, cookies):
+        rec = w.addon(before)
+        entries = [(name, (value, attrs_of(dom, path, exp))) for name, value, dom, path, exp, _ in cookies]
+        flow = w.flow(host, RPORT, "/account/login?x=1", pretty_host="pretty.invalid", set_cookies=entries)
+        raised = w.run(rec, "response", flow)
+        return w.jar_of(rec), raised
 
-def check_ckey(ctx):
-    fn = ctx.func(F, "ckey")
-    ps = params_of(fn)
-    ctx.require(len(ps) == 2, "ckey signature changed")
-    bad = None
-    for attrs in ({}, {"domain": ".d.example"}, {"path": "/p"}, {"domain": "d.example", "path": "/p/q"}):
+    def show(j):
+        return "{" + ", ".join(f"{k}: {v}" for k, v in sorted(j.items(), key=repr)) + "}"
+
+    for host, dom in SET_HOSTS:
+        kdom = dom if dom is not None else host
+        match = spec_domain(host, kdom)
+        clear = dom is None or core_domain(host, dom)
+        if match:
+            combos = itertools.product((None, "/p/q"), EXPIRY, ("empty", "same", "two"))
+        else:
+            combos = itertools.chain(itertools.product((None,), EXPIRY[:1] + EXPIRY[2:3], ("empty", "same")), [("/p/q", EXPIRY[0], "two")])
+        for path, (exp, expired), prior in combos:
+            ctx.cells += 1
+            key = (kdom, RPORT, path if path is not None else "/")
+            before = {UNRELATED[0]: dict(UNRELATED[1])}
+            if prior != "empty":
+                before[key] = {"sid": "old"}
+            if prior == "two":
+                before[key]["other"] = "o"
+            cookies = [("sid", "new", dom, path, exp, expired)]
+            after, raised = respond(before, host, cookies)
+            ref = reference_jar(before, host, RPORT, [(n, v, d, p, e) for n, v, d, p, _, e in cookies])
+            what = f"response from {host}:{RPORT} sets sid=new" + (f"; Domain={dom}" if dom is not None else "") + (f"; Path={path}" if path is not None else "") + "".join(f"; {k}={v}" for k, v in exp.items())
+            how = f"{what}, jar before {show(before)}: jar after {show(after)}, expected {show(ref)}" + (f" (hook raised {raised})" if raised else "")
+            if not match:
+                count["foreign"] += 1
+                if after != before and bad["foreign"] is None:
+                    bad["foreign"] = (f"Domain {kdom} / responding host {host}", how)
+            elif expired:
+                if after == ref:
+                    count["expiry"] += 1
+                elif not clear and after == before:
+                    pass  # Domain without leading dot for a sub-domain: the stricter reading does not touch the jar
+                elif bad["expiry"] is None:
+                    if any(name == "sid" for k, v in after.items() if k != UNRELATED[0] for name in v):
+                        bad["expiry"] = ("an expired cookie is not removed from the jar", how)
+                    elif any(not v for v in after.values()):
+                        bad["expiry"] = ("an emptied jar entry is not removed", how)
+                    else:
+                        bad["expiry"] = ("the jar differs from the reference after an expired cookie", how)
+            else:
+                if after == ref:
+                    count["key"] += 1
+                    if clear:
+                        stored_clear += 1
+                elif after == before:
+                    not_stored += 1  # safe: nothing learned
+                elif bad["key"] is None:
+                    new = {k: v for k, v in after.items() if before.get(k) != v}
+                    bad["key"] = (f"stored as {show(new)}, expected under {key}", how)
+
+    # multi-cookie responses (host-only and foreign cookies only: unambiguous), the loop must treat each cookie on its own
+    host = "shop.example.com"
+    hk = (host, RPORT, "/")
+    histories = [
+        ({}, [("a", "1", None, None, {}, False), ("evil", "x", "evil.org", None, {}, False), ("b", "2", None, "/b", {}, False)]),
+        ({hk: {"a": "old", "b": "old"}}, [("a", "", None, None, {"Max-Age": "0"}, True), ("b", "2", None, None, {}, False), ("c", "3", None, None, {"Max-Age": "60"}, False)]),
+        ({hk: {"a": "old"}}, [("b", "2", None, None, {}, False), ("evil", "x", ".example.com.evil.org", "/", {}, False), ("a", "", None, None, {"Max-Age": "-1"}, True)]),
+        ({hk: {"a": "old"}}, [("evil", "x", "evil.org", None, {"Max-Age": "0"}, True), ("a", "", None, None, {"Expires": "Thu, 01 Jan 1970 00:00:10 GMT"}, True), ("d", "4", None, "/d/", {}, False)]),
+        ({hk: {"a": "old"}, ("evil.org", RPORT, "/"): {"a": "theirs"}}, [("a", "", "evil.org", None, {"Max-Age": "0"}, True), ("a", "new", None, None, {}, False)]),
+    ]
+    for before0, cookies in histories:
         ctx.cells += 1
-        ev = PureEval("ckey", chains={f"{ps[1]}.request.host": "host.example", f"{ps[1]}.request.pretty_host": "pretty.example", f"{ps[1]}.request.port": 8443,
-                                      f"{ps[1]}.server_conn.address": ("x", 1)})
-        try:
-            got = ev.call(fn, dict(attrs), None)
-        except Raised as e:
-            got = f"raises {e}"
-        want = (attrs.get("domain", "host.example"), 8443, attrs.get("path", "/"))
-        if got != want:
-            bad = bad or (attrs, got, want)
-    ctx.check(not bad, "R54.2", (F, "ckey", fn), f"ckey({bad[0] if bad else ''}) = {bad[1] if bad else ''}, expected {bad[2] if bad else ''}",
-              "jar keys must be (Domain attribute or responding host, port of the responding request, Path attribute or '/'): request() compares against exactly these",
-              desc="ckey: (attrs.domain | request.host, request.port, attrs.path | '/') on 4 attribute combinations")
+        before = {UNRELATED[0]: dict(UNRELATED[1]), **{k: dict(v) for k, v in before0.items()}}
+        after, raised = respond(before, host, cookies)
+        ref = reference_jar(before, host, RPORT, [(n, v, d, p, e) for n, v, d, p, _, e in cookies])
+        count["history"] += 1
+        if after != ref and bad["history"] is None:
+            names = ", ".join(n + ("(expired)" if e else "") + (f"[Domain={d}]" if d else "") for n, _, d, _, _, e in cookies)
+            bad["history"] = (f"response from {host} setting {names}", f"jar before {show(before)}: jar after {show(after)}, expected {show(ref)}" + (f" (hook raised {raised})" if raised else ""))
+
+    ctx.require(stored_clear or any(bad.values()), f"{CLS}.response: no world stores a cookie although the Domain clearly matches (evaluation vacuous; hook raised: {w.raised})")
+    b = bad["foreign"]
+    ctx.check(b is None, "R54.2", W, f"store: jar changed for a domain the responding host does not domain-match: {b[0] if b else ''}",
+              f"a response can plant (or delete) cookies for unrelated domains: {b[1] if b else ''}",
+              desc=f"jar untouched when the responding host does not domain-match the cookie's Domain ({count['foreign']} worlds, response hook interpreted)")
+    b = bad["expiry"]
+    ctx.check(b is None, "R54.2", W, f"expiry: {b[0] if b else ''}", f"{b[0] if b else ''}: {b[1] if b else ''}",
+              desc=f"expired cookie (Max-Age <= 0, Expires in the past): removed from its entry, emptied entry dropped, everything else kept ({count['expiry']} worlds)")
+    b = bad["key"]
+    ctx.check(b is None, "R54.2", W, f"store: jar key/value differs: {b[0] if b else ''}",
+              f"jar keys must be (Domain attribute or responding host, port of the responding request, Path attribute or '/') -> name -> value, request() compares against exactly these: {b[1] if b else ''}",
+              desc=f"cookie stored under (Domain | request.host, request.port, Path | '/') with its value ({count['key']} worlds; {not_stored} safe non-stores)")
+    b = bad["history"]
+    ctx.check(b is None, "R54.2", W, f"history: {b[0] if b else ''}", f"a response with several cookies leaves the wrong jar: {b[1] if b else ''}",
+              desc=f"multi-cookie responses: every cookie handled on its own, foreign ones skipped, expired ones removed ({count['history']} histories)")
 
 
 def check(ctx):
-    ctx.rule("R54.1", "the guard for attaching a stored cookie implies RFC 6265 domain-match, port equality and RFC 6265 path-match (decision table evaluated on the AST)")
-    ctx.rule("R54.2", "cookies are stored only under domain_match(responding host, key domain) and when not expired; expired cookies and emptied entries are removed; "
-             "ckey = (domain, responding port, path)")
-    check_attach(ctx)
-    check_response(ctx)
-    check_ckey(ctx)
-    ctx.trust("http.cookiejar.domain_match (standard library) is used as its own model; cookies.is_expired")
+    ctx.rule("R54.1", "a stored cookie reaches a request only under RFC 6265 domain-match, port equality and RFC 6265 path-match (request hook interpreted on a decision table)")
+    ctx.rule("R54.2", "after a response the jar equals the reference: untouched for domains the responding host does not domain-match; expired cookies and emptied entries "
+             "removed; cookies stored under (domain, responding port, path)")
+    w = World(ctx)
+    ctx.guard(check_attach, ctx, w)
+    ctx.guard(check_response, ctx, w)
+    if w.raised:
+        ctx.note(f"hook runs ended by an exception: {w.raised}")
+    ctx.bounds.append(f"{len(HOSTS)}x{len(PORTS)}x{len(PATHS)} request cells; {len(SET_HOSTS)} host/Domain pairs x Path x {len(EXPIRY)} expiry forms x 3 jar states; clock fixed")
+    ctx.trust("http.cookiejar.domain_match, email.utils.parsedate_tz / mktime_tz and re (standard library) are used as their own models; fixed clock; the sticky filter matches")
     if not ctx.findings:
         ctx.expect_instances("R54.1", 3)
         ctx.expect_instances("R54.2", 4)
@@ -343,6 +463,7 @@ MUTANTS = [
     Mutant("domain-suffix-without-dot", F, "    elif cookiejar.domain_match(a, b.strip(\".\")):  # type: ignore\n        return True", "    elif a.endswith(b.strip(\".\")):\n        return True", "R54.1"),
     Mutant("any-instead-of-all", F, "                    if all(match):", "                    if any(match):", "R54.1"),
     Mutant("domain-match-always-true", F, "        return True\n    return False\n\n\ndef path_match", "        return True\n    return True\n\n\ndef path_match", "R54.1"),
+    Mutant("attach-every-jar-entry", F, "                    if all(match):\n                        cookie_list.extend(c.items())", "                    cookie_list.extend(c.items())", "R54.1"),
     Mutant("store-without-domain-check", F, "                if domain_match(flow.request.host, dom_port_path[0]):", "                if True:", "R54.2"),
     Mutant("store-domain-check-swapped", F, "                if domain_match(flow.request.host, dom_port_path[0]):", "                if domain_match(dom_port_path[0], flow.request.host):", "R54.2"),
     Mutant("expired-cookie-kept", F, "                        self.jar[dom_port_path].pop(name, None)\n", "", "R54.2"),
@@ -350,4 +471,8 @@ MUTANTS = [
     Mutant("empty-entry-kept", F, "                        if not self.jar[dom_port_path]:\n                            self.jar.pop(dom_port_path, None)\n", "", "R54.2"),
     Mutant("ckey-default-path-empty", F, "    path = \"/\"\n", "    path = \"\"\n", "R54.2"),
     Mutant("ckey-domain-attribute-ignored", F, "    if \"domain\" in attrs:\n        domain = attrs[\"domain\"]\n", "", "R54.2"),
+    Mutant("ckey-port-of-the-server-connection", F, "    return (domain, f.request.port, path)", "    return (domain, f.server_conn.address[1], path)", "R54.2"),
+    Mutant("ckey-host-header-instead-of-host", F, "    domain = f.request.host\n", "    domain = f.request.pretty_host\n", "R54.2"),
+    Mutant("negative-max-age-not-expired", "mitmproxy/net/http/cookies.py", "            max_age = int(cookie_attrs[\"Max-Age\"])\n        except ValueError:", "            max_age = int(cookie_attrs[\"Max-Age\"])\n            if max_age < 0:\n                raise ValueError\n        except ValueError:", "R54.2"),
+    Mutant("first-foreign-cookie-ends-the-loop", F, "                    else:\n                        self.jar[dom_port_path][name] = value\n", "                    else:\n                        self.jar[dom_port_path][name] = value\n                else:\n                    break\n", "R54.2"),
 ]
